@@ -88,6 +88,21 @@ func TestVerif_C09(t *testing.T) {
 	rng := kit.Rand(9)
 	for hi := 0; hi < nh; hi++ {
 		h := vGenHistory(kit.Seed()*100000 + int64(hi))
+		// every second history: "full" index files already at a handful of blobs (several index files per backup,
+		// the keep-full-index-file path of prune's index rewrite)
+		idxFull := []uint{0, 4, 0, 7}[hi%4]
+		vScaleIndexFull(idxFull)
+		defer vScaleIndexFull(0)
+		if idxFull > 0 {
+			h.PruneDesc += fmt.Sprintf(" index-full-at=%d", idxFull)
+		}
+		if hi%6 == 2 {
+			// a damaged history (see below) in which prune has to repair the index AND repack: the first backup is
+			// forgotten (its pack stays partly used by later snapshots), no unused space is tolerated
+			h.Forget = []int{0}
+			h.Prune = PruneOptions{MaxUnused: "0"}
+			h.PruneDesc = "max-unused=0 (repair+repack)" + fmt.Sprintf(" index-full-at=%d", idxFull)
+		}
 		e := newVEnv(t, nil)
 		ids, want, err := vRunBackups(t, e, h)
 		if err != nil {
@@ -167,9 +182,40 @@ func TestVerif_C09(t *testing.T) {
 					map[string]any{"history": h.Seed, "seq": seq})
 			}
 		}
+		// a prune that completed on a history with a lost-but-unneeded pack has repaired it: the final state is
+		// judged with the real check again (crash prefixes of such a history still name the lost pack)
+		if damaged && perr == nil {
+			vOracleSkipCheck = false
+			if fails := vOracle(t, e.store.Files(), vPassword, want, keep); len(fails) > 0 {
+				res.Violate(fmt.Sprintf("prune/completed-on-lost-unneeded-pack/%s", vClass(fails[0])),
+					fmt.Sprintf("history seed %d (%s): after the completed prune: %v", h.Seed, h.PruneDesc, fails), map[string]any{"history": h.Seed})
+			}
+			vOracleSkipCheck = true
+			res.Count("completed_prunes_on_damaged_histories_checked", 1)
+		}
 		// a second prune on one crashed prefix must succeed and keep everything
-		if len(points) > 0 {
-			files := kit.StateAt(map[backendHandle][]byte{}, ops, points[0])
+		// re-runs: half of them on crash points inside the index rewrite (rewritten index files stored, old ones
+		// not all removed yet: duplicate index entries), the rest anywhere
+		nrer := kit.Pick(4, 12)
+		var inRewrite []int
+		for _, op := range ops[startSeq:] {
+			if op.OK && op.H.Type.String() == "index" && (op.Kind == "Save" || op.Kind == "Remove") {
+				inRewrite = append(inRewrite, op.Seq)
+			}
+		}
+		rng.Shuffle(len(inRewrite), func(i, j int) { inRewrite[i], inRewrite[j] = inRewrite[j], inRewrite[i] })
+		capRewrite := nrer / 2
+		if idxFull > 0 {
+			// several "full" index files: which of them a later rewrite keeps depends on the crash point
+			capRewrite = kit.Pick(8, 24)
+			nrer += capRewrite
+		}
+		if len(inRewrite) > capRewrite {
+			inRewrite = inRewrite[:capRewrite]
+		}
+		rerunAt := append(append([]int{}, inRewrite...), points...)
+		for pi := 0; pi < nrer && pi < len(rerunAt); pi++ {
+			files := kit.StateAt(map[backendHandle][]byte{}, ops, rerunAt[pi])
 			st := kit.NewStoreFrom(files)
 			for _, n := range st.Names(lockFileType) {
 				st.Del(backendHandle{Type: lockFileType, Name: n})
@@ -178,12 +224,12 @@ func TestVerif_C09(t *testing.T) {
 			if err := e2.prune(PruneOptions{MaxUnused: "0"}); err != nil && damaged {
 				// a refusal is fine on environment-damaged storage, but nothing may have been lost
 				if fails := vOracle(t, e2.store.Files(), vPassword, want, keep); len(fails) > 0 {
-					res.Violate("prune/rerun-after-crash/"+vClass(fails[0]), fmt.Sprintf("history seed %d: after a refused re-run of prune on crash prefix %d: %v", h.Seed, points[0], fails), map[string]any{"history": h.Seed, "seq": points[0]})
+					res.Violate("prune/rerun-after-crash/"+vClass(fails[0]), fmt.Sprintf("history seed %d: after a refused re-run of prune on crash prefix %d: %v", h.Seed, rerunAt[pi], fails), map[string]any{"history": h.Seed, "seq": rerunAt[pi]})
 				}
 			} else if err != nil {
-				res.Violate("prune/rerun-after-crash/fails", fmt.Sprintf("history seed %d: prune after crash at op %d failed: %v", h.Seed, points[0], err), map[string]any{"history": h.Seed, "seq": points[0]})
+				res.Violate("prune/rerun-after-crash/fails", fmt.Sprintf("history seed %d: prune after crash at op %d failed: %v", h.Seed, rerunAt[pi], err), map[string]any{"history": h.Seed, "seq": rerunAt[pi]})
 			} else if fails := vOracle(t, e2.store.Files(), vPassword, want, keep); len(fails) > 0 {
-				res.Violate("prune/rerun-after-crash/"+vClass(fails[0]), fmt.Sprintf("history seed %d: after re-running prune on crash prefix %d: %v", h.Seed, points[0], fails), map[string]any{"history": h.Seed, "seq": points[0]})
+				res.Violate("prune/rerun-after-crash/"+vClass(fails[0]), fmt.Sprintf("history seed %d: after re-running prune on crash prefix %d: %v", h.Seed, rerunAt[pi], fails), map[string]any{"history": h.Seed, "seq": rerunAt[pi]})
 			}
 			res.Count("reruns", 1)
 		}
